@@ -2198,7 +2198,10 @@ def oracle(case, r):
         if op[0] == "call" and "call" in st and res not in ("skip",):
             named = {frozenset((a, t)) for a, t in st["call"]["items"] if isinstance(t, int)}
             variant = op[1]
-            if destroyed and (variant == "set" or refused) and not st.get("merged"):
+            # (`run` / `node(...)` first let outstanding jobs finish and may set off runs of whole workflows through the
+            # signals: a flow derivation legitimately re-wires run signals -- C11's subject, not this clause's)
+            rewired = any(t.startswith(("t-dagbegin", "t-pullbegin")) for t in st.get("trace") or [])
+            if destroyed and (variant == "set" or (refused and not rewired)) and not st.get("merged"):
                 fails.append(_f("call-destroyed-a-connection", k, op,
                                 f"{res}: {sorted(map(sorted, destroyed))} existed before the call and are gone",
                                 refused=refused, variant=variant))
